@@ -1,8 +1,904 @@
-//! stub (to be implemented)
-#![allow(dead_code, unused_variables)]
-use crate::common::*;
+//! E6 `vtime` — the store's background worker in virtual time, with gates at its hook points
+//! (DESIGN §5 E6). Serves C18 (policy grid) and C17 (drop at every gate position).
+
+use std::collections::BTreeMap;
+use std::path::{Path, PathBuf};
+use std::sync::atomic::{AtomicBool, Ordering};
+use std::sync::{Condvar, Mutex};
+use std::time::{Duration, Instant};
+
+use bitcask::storage::bitcask::{Config, SyncStrategy, VerifMergePolicy};
+use bitcask::storage::KeyValueStorage;
+use bitcask::verif::Ev;
+use bytes::Bytes;
+use chrono::Timelike;
 use serde_json::{json, Value};
-pub fn worker(job: &Job) -> Shard { Shard::default() }
-pub fn replay(prop: &str, case: &Value) -> Vec<Violation> { vec![] }
-pub fn report_meta(prop: &str, tier: Tier) -> (String, Value, Vec<String>) { (String::new(), json!({}), vec![]) }
-pub fn uncontrolled_hook(_ev: bitcask::verif::Ev) {}
+
+use crate::common::*;
+use crate::iohook::{self, Call};
+use crate::model::Kv;
+
+// ---------------------------------------------------------------------------------------------
+// gates for threads the harness does not schedule (background worker + its blocking pool)
+
+#[derive(Default)]
+struct BgState {
+    /// labels of `bg:*` points at which the worker is held
+    hold_labels: Vec<&'static str>,
+    /// hold the n-th (1-based) inner hook event emitted on a blocking-pool thread
+    hold_inner: Option<usize>,
+    inner_seen: usize,
+    /// (label, virtual ms, real instant index) of every bg:* point reached
+    events: Vec<(String, i64)>,
+    /// description of the point a thread is currently held at
+    held_at: Option<String>,
+    /// number of releases granted so far / consumed
+    releases: usize,
+    consumed: usize,
+    /// number of holds that have started
+    hold_seq: usize,
+}
+
+struct BgCtl {
+    m: Mutex<BgState>,
+    cv: Condvar,
+}
+
+static ENABLED: AtomicBool = AtomicBool::new(false);
+static CTL: BgCtl = BgCtl { m: Mutex::new(BgState { hold_labels: Vec::new(), hold_inner: None, inner_seen: 0, events: Vec::new(), held_at: None, releases: 0, consumed: 0, hold_seq: 0 }), cv: Condvar::new() };
+
+fn ctl_reset(hold_labels: Vec<&'static str>, hold_inner: Option<usize>) {
+    let mut st = CTL.m.lock().unwrap();
+    *st = BgState { hold_labels, hold_inner, ..Default::default() };
+    ENABLED.store(true, Ordering::SeqCst);
+}
+fn ctl_disable() {
+    ENABLED.store(false, Ordering::SeqCst);
+    let mut st = CTL.m.lock().unwrap();
+    st.hold_labels.clear();
+    st.hold_inner = None;
+    st.releases = usize::MAX / 2;
+    CTL.cv.notify_all();
+}
+fn hold_here(mut st: std::sync::MutexGuard<'_, BgState>, what: String) {
+    st.held_at = Some(what);
+    st.hold_seq += 1;
+    CTL.cv.notify_all();
+    while st.consumed >= st.releases {
+        st = CTL.cv.wait(st).unwrap();
+    }
+    st.consumed += 1;
+    st.held_at = None;
+    CTL.cv.notify_all();
+}
+/// Wait until a thread is held; returns what it is held at.
+fn wait_held(timeout: Duration) -> Option<String> {
+    let t0 = Instant::now();
+    let mut st = CTL.m.lock().unwrap();
+    loop {
+        // a hold that has started and has not been released yet
+        if st.hold_seq > st.releases {
+            if let Some(h) = &st.held_at {
+                return Some(h.clone());
+            }
+        }
+        let left = timeout.checked_sub(t0.elapsed())?;
+        st = CTL.cv.wait_timeout(st, left).unwrap().0;
+    }
+}
+fn release_one() {
+    let mut st = CTL.m.lock().unwrap();
+    st.releases += 1;
+    CTL.cv.notify_all();
+}
+fn set_holds(labels: Vec<&'static str>, inner: Option<usize>) {
+    let mut st = CTL.m.lock().unwrap();
+    st.hold_labels = labels;
+    st.hold_inner = inner;
+}
+fn events() -> Vec<(String, i64)> {
+    CTL.m.lock().unwrap().events.clone()
+}
+fn inner_seen() -> usize {
+    CTL.m.lock().unwrap().inner_seen
+}
+
+/// Hook events emitted on threads that are not under the E3 scheduler.
+pub fn uncontrolled_hook(ev: Ev) {
+    if !ENABLED.load(Ordering::SeqCst) {
+        return;
+    }
+    match ev {
+        Ev::Point(l) if l.starts_with("bg:") => {
+            let mut st = CTL.m.lock().unwrap();
+            st.events.push((l.to_string(), iohook::vnow_ms()));
+            if st.hold_labels.contains(&l) {
+                hold_here(st, l.to_string());
+            } else {
+                drop(st);
+            }
+            // a blocking operation is about to be spawned: virtual time waits for it
+            if l == "bg:merge:go" || l == "bg:sync:tick" {
+                iohook::vtime_busy(1);
+            }
+        }
+        Ev::Release(r, _) => {
+            if r == bitcask::verif::WRITER && std::thread::current().name().map_or(false, |n| n.starts_with("tokio-runtime-w")) {
+                iohook::vtime_busy(-1);
+            }
+        }
+        other => {
+            // inner points of a background merge / sync: hook events on the worker's blocking pool
+            let t = std::thread::current();
+            if t.name().map_or(false, |n| n.starts_with("tokio-runtime-w")) {
+                let mut st = CTL.m.lock().unwrap();
+                st.inner_seen += 1;
+                if st.hold_inner == Some(st.inner_seen) {
+                    let what = format!("inner#{}:{:?}", st.inner_seen, other);
+                    hold_here(st, what);
+                }
+            }
+        }
+    }
+}
+
+fn bg_threads_alive() -> usize {
+    let mut n = 0;
+    if let Ok(rd) = std::fs::read_dir("/proc/self/task") {
+        for e in rd.flatten() {
+            if let Ok(c) = std::fs::read_to_string(e.path().join("comm")) {
+                if c.starts_with("bitcask-backgro") {
+                    n += 1;
+                }
+            }
+        }
+    }
+    n
+}
+fn thread_count() -> usize {
+    std::fs::read_dir("/proc/self/task").map(|r| r.count()).unwrap_or(0)
+}
+fn fd_count() -> usize {
+    std::fs::read_dir("/proc/self/fd").map(|r| r.count()).unwrap_or(0)
+}
+fn wait_bg_gone(timeout: Duration) -> Option<Duration> {
+    let t0 = Instant::now();
+    loop {
+        if bg_threads_alive() == 0 {
+            return Some(t0.elapsed());
+        }
+        if t0.elapsed() > timeout {
+            return None;
+        }
+        std::thread::sleep(Duration::from_micros(200));
+    }
+}
+
+fn b(s: &str) -> Bytes {
+    Bytes::from(s.to_string())
+}
+
+// ---------------------------------------------------------------------------------------------
+// C18
+
+#[derive(Clone, Copy, Debug, PartialEq, Eq)]
+pub enum Policy {
+    Never,
+    Always,
+    WindowIn,
+    WindowOut,
+}
+#[derive(Clone, Copy, Debug, PartialEq, Eq)]
+pub enum Trig {
+    None,
+    DeadBytes,
+    Frag,
+    Both,
+}
+#[derive(Clone, Copy, Debug, PartialEq, Eq)]
+pub enum SyncS {
+    None,
+    Always,
+    Interval(u64),
+}
+
+#[derive(Clone, Debug)]
+pub struct C18Case {
+    pub policy: Policy,
+    pub trig: Trig,
+    /// the trigger is crossed while the worker is held at its k-th tick (1-based)
+    pub k: usize,
+    pub interval_ms: u64,
+    pub jitter: f64,
+    pub sync: SyncS,
+    pub horizon: usize,
+}
+
+impl C18Case {
+    fn to_json(&self) -> Value {
+        json!({"engine": "vtime", "kind": "c18", "policy": format!("{:?}", self.policy), "trigger": format!("{:?}", self.trig), "k": self.k, "interval_ms": self.interval_ms, "jitter": self.jitter, "sync": match self.sync { SyncS::None => json!("none"), SyncS::Always => json!("always"), SyncS::Interval(d) => json!(d) }, "horizon": self.horizon})
+    }
+    fn from_json(v: &Value) -> Option<C18Case> {
+        Some(C18Case {
+            policy: match v["policy"].as_str()? { "Never" => Policy::Never, "Always" => Policy::Always, "WindowIn" => Policy::WindowIn, _ => Policy::WindowOut },
+            trig: match v["trigger"].as_str()? { "None" => Trig::None, "DeadBytes" => Trig::DeadBytes, "Frag" => Trig::Frag, _ => Trig::Both },
+            k: v["k"].as_u64()? as usize,
+            interval_ms: v["interval_ms"].as_u64()?,
+            jitter: v["jitter"].as_f64()?,
+            sync: match &v["sync"] { Value::String(s) if s == "always" => SyncS::Always, Value::Number(n) => SyncS::Interval(n.as_u64()?), _ => SyncS::None },
+            horizon: v["horizon"].as_u64()? as usize,
+        })
+    }
+}
+
+const DEAD_TRIGGER: u64 = 40;
+const FRAG_TRIGGER: f64 = 0.6;
+
+fn reference_can_merge(stats: &[(u64, u64, u64, u64)], dead_trig: u64, frag_trig: f64) -> bool {
+    stats.iter().any(|(_, live, dead, bytes)| {
+        let frag = if *dead == 0 { 0.0 } else { *dead as f64 / (*dead + *live) as f64 };
+        *bytes > dead_trig || frag > frag_trig
+    })
+}
+
+type V = (String, String);
+fn mach(m: impl Into<String>) -> V {
+    ("MACHINERY".into(), m.into())
+}
+
+pub fn c18_case(dir: &Path, c: &C18Case) -> Result<String, V> {
+    rmrf(dir);
+    std::fs::create_dir_all(dir).unwrap();
+    let hour0 = chrono::Local::now().hour();
+    let mut conf = Config::default();
+    conf.path(dir).concurrency(1).merge_check_interval_ms(c.interval_ms).merge_check_jitter(c.jitter);
+    conf.merge_threshold_small_file(u64::MAX);
+    let (dt, ft) = match c.trig {
+        Trig::None | Trig::Both => (DEAD_TRIGGER, FRAG_TRIGGER),
+        Trig::DeadBytes => (DEAD_TRIGGER, 1.0),
+        Trig::Frag => (u64::MAX, FRAG_TRIGGER),
+    };
+    conf.merge_trigger_dead_bytes(dt).merge_trigger_fragmentation(ft);
+    conf.merge_policy(match c.policy {
+        Policy::Never => VerifMergePolicy::Never,
+        Policy::Always => VerifMergePolicy::Always,
+        Policy::WindowIn => VerifMergePolicy::Window { start: hour0, end: hour0 },
+        Policy::WindowOut => VerifMergePolicy::Window { start: (hour0 + 12) % 24, end: (hour0 + 12) % 24 },
+    });
+    conf.sync(match c.sync {
+        SyncS::None => SyncStrategy::None,
+        SyncS::Always => SyncStrategy::Always,
+        SyncS::Interval(d) => SyncStrategy::IntervalMs(d),
+    });
+    iohook::vtime_enable(true);
+    ctl_reset(vec!["bg:merge:tick"], None);
+    iohook::grec_start(&dir.to_string_lossy(), true);
+    let t_real = Instant::now();
+    let kv = conf.open().map_err(|e| mach(format!("open: {}", e)))?;
+    let h = kv.get_handle();
+    let res = (|| -> Result<String, V> {
+        // some data below every trigger: one live key, one overwrite (27 dead bytes, fragmentation 0.5)
+        h.set(b("k"), b("v")).map_err(|e| mach(e.to_string()))?;
+        h.set(b("k"), b("v")).map_err(|e| mach(e.to_string()))?;
+        let allowed = matches!(c.policy, Policy::Always | Policy::WindowIn);
+        let mut tick_times: Vec<i64> = vec![];
+        let mut merges_seen_at: Vec<usize> = vec![];
+        let mut expected_at: Vec<usize> = vec![];
+        if c.policy == Policy::Never {
+            // the merge task returns at once: there are no ticks; let virtual time run over the horizon
+            let horizon_ms = (c.interval_ms as f64 * (1.0 + c.jitter) * c.horizon as f64) as i64 + 10;
+            // cross the triggers right away
+            h.set(b("k"), b("v")).map_err(|e| mach(e.to_string()))?;
+            h.set(b("k"), b("v")).map_err(|e| mach(e.to_string()))?;
+            // with no timers (sync none/always) nothing advances virtual time: that alone shows no task is ticking
+            let t0 = Instant::now();
+            while iohook::vnow_ms() < horizon_ms && t0.elapsed() < Duration::from_millis(if matches!(c.sync, SyncS::Interval(_)) { 400 } else { 30 }) {
+                std::thread::sleep(Duration::from_millis(1));
+            }
+        } else {
+            for tick in 1..=c.horizon {
+                let Some(at) = wait_held(Duration::from_secs(10)) else {
+                    return Err(("merge-task-stopped-ticking".into(), format!("tick {} of the merge task did not arrive within 10 s real time (virtual now {} ms)", tick, iohook::vnow_ms())));
+                };
+                if at != "bg:merge:tick" {
+                    return Err(mach(format!("held at {}", at)));
+                }
+                tick_times.push(iohook::vnow_ms());
+                if tick == c.k && c.trig != Trig::None {
+                    // cross the trigger now: two more overwrites -> 81 dead bytes, fragmentation 0.75
+                    h.set(b("k"), b("v")).map_err(|e| mach(e.to_string()))?;
+                    h.set(b("k"), b("v")).map_err(|e| mach(e.to_string()))?;
+                }
+                // the implementation's predicate equals the reference predicate on the counters
+                let dump = h.verif_dump();
+                let refp = reference_can_merge(&dump.stats, dt, ft);
+                let window_ok = !matches!(c.policy, Policy::WindowOut);
+                let implp = h.verif_can_merge();
+                if implp != (refp && window_ok) {
+                    return Err(("trigger-predicate-differs-from-reference".into(), format!("tick {}: can_merge() = {}, reference on counters {:?} with triggers dead_bytes>{} fragmentation>{} = {} (window ok: {})", tick, implp, dump.stats, dt, ft, refp, window_ok)));
+                }
+                if refp && allowed {
+                    expected_at.push(tick);
+                }
+                let hints_before = iohook::grec_snapshot().iter().filter(|x| matches!(x, Call::Create { path, .. } if path.ends_with(".hint"))).count();
+                release_one();
+                if refp && allowed {
+                    // the merge must start now: wait for its hint file
+                    let t0 = Instant::now();
+                    loop {
+                        let n = iohook::grec_snapshot().iter().filter(|x| matches!(x, Call::Create { path, .. } if path.ends_with(".hint"))).count();
+                        if n > hints_before {
+                            merges_seen_at.push(tick);
+                            break;
+                        }
+                        if t0.elapsed() > Duration::from_secs(6) {
+                            return Err(("merge-does-not-run-when-triggered".into(), format!("tick {}: the trigger is exceeded (counters {:?}) and the policy allows merging, but no merge started within 6 s", tick, dump.stats)));
+                        }
+                        std::thread::sleep(Duration::from_micros(200));
+                    }
+                }
+            }
+            // hold at the tick after the horizon so that everything before it is complete
+            let _ = wait_held(Duration::from_secs(10));
+        }
+        let log = iohook::grec_snapshot();
+        // merges observed = hint creations grouped by the tick they follow
+        let hint_creates = log.iter().filter(|x| matches!(x, Call::Create { path, .. } if path.ends_with(".hint"))).count();
+        let go_events = events().iter().filter(|e| e.0 == "bg:merge:go").count();
+        if expected_at.is_empty() && (hint_creates > 0 || go_events > 0) {
+            return Err(("merge-ran-without-trigger-or-against-policy".into(), format!("policy {:?}, trigger crossing {:?}: {} merge(s) started ({} hint files created)", c.policy, c.trig, go_events, hint_creates)));
+        }
+        if go_events != expected_at.len() {
+            return Err(("wrong-number-of-merges".into(), format!("merges started {} (ticks {:?}), expected at ticks {:?}", go_events, merges_seen_at, expected_at)));
+        }
+        // tick spacing within interval * (1 +- jitter)
+        let lo = c.interval_ms as f64 * (1.0 - c.jitter);
+        let hi = c.interval_ms as f64 * (1.0 + c.jitter);
+        let slack = 0.01 * c.interval_ms as f64 + 60.0; // 1 % + real time spent at the gates / in a merge
+        let mut prev = 0i64;
+        for (i, t) in tick_times.iter().enumerate() {
+            let d = (*t - prev) as f64;
+            if d < lo - slack.min(lo) - 2.0 || d > hi + slack {
+                return Err(("tick-spacing-outside-interval-plus-minus-jitter".into(), format!("tick {} came {} ms (virtual) after the previous one; allowed [{:.0}, {:.0}] +- slack; ticks at {:?}", i + 1, d, lo, hi, tick_times)));
+            }
+            prev = *t;
+        }
+        // interval sync: consecutive fsyncs of the active file at most one interval (+ slack) apart
+        let mut sync_note = String::new();
+        if let SyncS::Interval(d) = c.sync {
+            let mut vt = 0i64;
+            let mut fsyncs: Vec<i64> = vec![];
+            for x in &log {
+                match x {
+                    Call::Mark(m) => {
+                        if let Some(t) = m.strip_prefix("vt:") {
+                            vt = t.parse().unwrap_or(vt);
+                        }
+                    }
+                    Call::Fsync { path } if path.ends_with(".data") => fsyncs.push(vt),
+                    _ => {}
+                }
+            }
+            let end = iohook::vnow_ms();
+            let mut last = 0i64;
+            let slack = 0.01 * d as f64 + 80.0;
+            for t in fsyncs.iter().chain(std::iter::once(&end)) {
+                if (*t - last) as f64 > d as f64 + slack {
+                    return Err(("interval-sync-gap-too-long".into(), format!("no fsync of a data file between virtual {} ms and {} ms although sync interval is {} ms; fsyncs at {:?}", last, t, d, &fsyncs[..fsyncs.len().min(12)])));
+                }
+                last = *t;
+            }
+            if end as f64 > d as f64 + slack && fsyncs.is_empty() {
+                return Err(("interval-sync-never-syncs".into(), format!("virtual {} ms elapsed, no fsync", end)));
+            }
+            sync_note = format!(" fsyncs={}", fsyncs.len().min(99));
+        }
+        Ok(format!("{:?}/{:?} merges={}{}", c.policy, c.trig, go_events, if sync_note.is_empty() { "" } else { " sync" }))
+    })();
+    // tear down: no more holds, drop the store, the worker must go away
+    ctl_disable();
+    drop(h);
+    drop(kv);
+    let gone = wait_bg_gone(Duration::from_secs(5));
+    let after_drop_len = iohook::grec_snapshot().len();
+    std::thread::sleep(Duration::from_millis(2));
+    let log = iohook::grec_stop();
+    iohook::vtime_enable(false);
+    let _ = t_real;
+    let hour1 = chrono::Local::now().hour();
+    if hour1 != hour0 {
+        return Err(mach("the wall-clock hour changed during the case"));
+    }
+    let o = res?;
+    if gone.is_none() {
+        return Err(("worker-thread-still-alive-after-drop".into(), "the background thread did not exit within 5 s after the store was dropped".into()));
+    }
+    if log.len() > after_drop_len && log[after_drop_len..].iter().any(|c| matches!(c, Call::Fsync { .. })) {
+        return Err(("sync-continues-after-drop".into(), "an fsync was issued after the store was dropped and its worker had exited".into()));
+    }
+    Ok(o)
+}
+
+fn c18_cases(tier: Tier) -> Vec<C18Case> {
+    let mut v = vec![];
+    let horizon = tier.pick(5, 10);
+    let intervals: Vec<u64> = vec![1, 1000, 18_000, 180_000, 3_600_000];
+    let jitters = [0.0, 0.3, 1.0];
+    for policy in [Policy::Never, Policy::Always, Policy::WindowIn, Policy::WindowOut] {
+        for trig in [Trig::None, Trig::DeadBytes, Trig::Frag, Trig::Both] {
+            let ks: Vec<usize> = if trig == Trig::None || policy == Policy::Never { vec![1] } else { vec![1, 2, 3] };
+            for k in ks {
+                for &interval_ms in &intervals {
+                    for jitter in jitters {
+                        let mut syncs = vec![SyncS::None, SyncS::Always];
+                        // an interval sync about a third of the merge interval (never below 1 ms)
+                        syncs.push(SyncS::Interval((interval_ms / 3).max(1)));
+                        if interval_ms >= 1000 && tier == Tier::Thorough {
+                            syncs.push(SyncS::Interval(interval_ms * 2));
+                        }
+                        for sync in syncs {
+                            if policy == Policy::Never && jitter != 0.3 {
+                                continue;
+                            }
+                            v.push(C18Case { policy, trig, k, interval_ms, jitter, sync, horizon });
+                        }
+                    }
+                }
+            }
+        }
+    }
+    // sync strategies on their own (merge never): interval 1 ms, 500 ms, 10 min
+    for d in [1u64, 500, 600_000] {
+        v.push(C18Case { policy: Policy::Never, trig: Trig::None, k: 1, interval_ms: d * 4, jitter: 0.0, sync: SyncS::Interval(d), horizon: tier.pick(5, 10) });
+    }
+    v
+}
+
+// ---------------------------------------------------------------------------------------------
+// C17
+
+#[derive(Clone, Debug)]
+pub struct C17Case {
+    /// "sleeping" | "bg:merge:tick" | "bg:merge:go" | "bg:sync:tick" | "inner"
+    pub at: String,
+    /// which inner point (1-based) for at == "inner"
+    pub inner: usize,
+    /// before which tick (1-based) the drop happens
+    pub tick: usize,
+    /// worker configuration: merge trigger met?
+    pub trigger_met: bool,
+    pub merge_never: bool,
+    pub sync_interval: bool,
+    pub cycles: usize,
+}
+impl C17Case {
+    fn to_json(&self) -> Value {
+        json!({"engine": "vtime", "kind": "c17", "at": self.at, "inner": self.inner, "tick": self.tick, "trigger_met": self.trigger_met, "merge_never": self.merge_never, "sync_interval": self.sync_interval, "cycles": self.cycles})
+    }
+    fn from_json(v: &Value) -> Option<C17Case> {
+        Some(C17Case { at: v["at"].as_str()?.to_string(), inner: v["inner"].as_u64()? as usize, tick: v["tick"].as_u64()? as usize, trigger_met: v["trigger_met"].as_bool()?, merge_never: v["merge_never"].as_bool()?, sync_interval: v["sync_interval"].as_bool()?, cycles: v["cycles"].as_u64()? as usize })
+    }
+}
+
+fn c17_conf(dir: &Path, c: &C17Case, cache: usize) -> Config {
+    let mut conf = Config::default();
+    conf.path(dir).concurrency(1).readers_cache_size(cache).merge_check_interval_ms(3_600_000).merge_check_jitter(0.0).max_file_size(60);
+    conf.merge_threshold_small_file(u64::MAX);
+    conf.merge_trigger_dead_bytes(if c.trigger_met { 0 } else { u64::MAX }).merge_trigger_fragmentation(1.0);
+    if c.merge_never {
+        conf.merge_policy(VerifMergePolicy::Never);
+    }
+    if c.sync_interval {
+        conf.sync(SyncStrategy::IntervalMs(1_300_000));
+    }
+    conf
+}
+
+fn read_model(h: &bitcask::storage::bitcask::Handle, keys: &[&str]) -> Result<Kv, String> {
+    let mut m = Kv::new();
+    for k in keys {
+        match std::panic::catch_unwind(std::panic::AssertUnwindSafe(|| h.get(b(k)))) {
+            Ok(Ok(Some(v))) => {
+                m.insert(k.as_bytes().to_vec(), v.to_vec());
+            }
+            Ok(Ok(None)) => {}
+            Ok(Err(e)) => return Err(format!("get({}) -> Err({})", k, e)),
+            Err(_) => return Err(format!("get({}) panicked", k)),
+        }
+    }
+    Ok(m)
+}
+
+pub fn c17_case(dir: &Path, c: &C17Case) -> Result<String, V> {
+    rmrf(dir);
+    std::fs::create_dir_all(dir).unwrap();
+    let keys = ["k", "j", "n"];
+    iohook::vtime_enable(true);
+    let hold_labels: Vec<&'static str> = match c.at.as_str() {
+        "bg:merge:tick" => vec!["bg:merge:tick"],
+        "bg:merge:go" => vec!["bg:merge:go"],
+        "bg:sync:tick" => vec!["bg:sync:tick"],
+        _ => vec![],
+    };
+    // ticks before the chosen one pass freely: hold only from the chosen tick on
+    ctl_reset(vec![], None);
+    iohook::grec_start(&dir.to_string_lossy(), false);
+    let threads0 = thread_count();
+    let conf = c17_conf(dir, c, 4);
+    // virtual time may not pass the chosen tick while the store is being filled
+    iohook::vtime_hold(true);
+    let kv = conf.clone().open().map_err(|e| mach(format!("open: {}", e)))?;
+    let h = kv.get_handle();
+    let mut model = Kv::new();
+    let res = (|| -> Result<String, V> {
+        for (k, v) in [("k", "v1"), ("k", "v2"), ("j", "w")] {
+            h.set(b(k), b(v)).map_err(|e| mach(e.to_string()))?;
+            model.insert(k.as_bytes().to_vec(), v.as_bytes().to_vec());
+        }
+        // let virtual time run up to half a period before the chosen tick: the first `tick - 1`
+        // ticks pass (each may merge / sync), then the worker sleeps with its timer far away
+        let sync_gate = c.at == "bg:sync:tick" || (c.at == "inner" && c.sync_interval && (c.merge_never || !c.trigger_met));
+        let period: i64 = if sync_gate { 1_300_000 } else { 3_600_000 };
+        let limit = (c.tick as i64 - 1) * period + period / 2;
+        iohook::vtime_limit_ms(Some(limit));
+        iohook::vtime_hold(false);
+        let has_timers = !c.merge_never || c.sync_interval;
+        if has_timers {
+            let t0 = Instant::now();
+            while iohook::vnow_ms() < limit {
+                if t0.elapsed() > Duration::from_secs(10) {
+                    return Err(mach(format!("virtual time stuck at {} ms below the limit {} ms", iohook::vnow_ms(), limit)));
+                }
+                std::thread::sleep(Duration::from_micros(200));
+            }
+            std::thread::sleep(Duration::from_millis(2));
+        }
+        if c.trigger_met {
+            // earlier ticks merged: create dead bytes again so that the chosen tick merges, too
+            for v in ["v3", "v4"] {
+                h.set(b("k"), b(v)).map_err(|e| mach(e.to_string()))?;
+                model.insert(b"k".to_vec(), v.as_bytes().to_vec());
+            }
+        }
+        let mut held: Option<String> = None;
+        if c.at == "sleeping" {
+            // the worker sleeps with its next timer half a period (virtual) away
+            std::thread::sleep(Duration::from_millis(1));
+        } else {
+            set_holds(hold_labels.clone(), if c.at == "inner" { Some(inner_seen() + c.inner) } else { None });
+            iohook::vtime_limit_ms(None);
+            match wait_held(Duration::from_millis(1500)) {
+                Some(x) => held = Some(x),
+                None => {
+                    // this gate position does not exist in this configuration (e.g. fewer inner points)
+                    return Ok("gate-position-not-reached".into());
+                }
+            }
+        }
+        let log_len_before_drop = iohook::grec_snapshot().len();
+        // drop the store on its own thread: a drop that waits for an in-flight operation is legal,
+        // everything below is relative to the moment the drop RETURNED
+        let dropped = std::sync::Arc::new(AtomicBool::new(false));
+        let d2 = dropped.clone();
+        let dropper = std::thread::spawn(move || {
+            drop(kv);
+            d2.store(true, Ordering::SeqCst);
+        });
+        let t0 = Instant::now();
+        while !dropped.load(Ordering::SeqCst) && t0.elapsed() < Duration::from_millis(30) {
+            std::thread::sleep(Duration::from_micros(100));
+        }
+        let drop_waited = !dropped.load(Ordering::SeqCst);
+        let mut reopened_early: Option<(bitcask::storage::bitcask::Bitcask, bitcask::storage::bitcask::Handle)> = None;
+        let mut log_len_at_drop = iohook::grec_snapshot().len();
+        if !drop_waited {
+            // the drop returned while the worker is still held (or asleep): handles are closed now
+            for (what, r) in [("set", h.set(b("x"), b("y")).map(|_| ()).map_err(|e| e.to_string())), ("get", h.get(b("k")).map(|_| ()).map_err(|e| e.to_string())), ("del", h.del(b("k")).map(|_| ()).map_err(|e| e.to_string())), ("merge", h.verif_merge().map_err(|e| e.to_string())), ("sync", h.verif_sync().map_err(|e| e.to_string()))] {
+                match r {
+                    Err(e) if e.contains("closed") => {}
+                    other => return Err(("operation-on-a-closed-store-not-rejected".into(), format!("{} through a retained handle after the drop returned: {:?}", what, other))),
+                }
+            }
+            log_len_at_drop = iohook::grec_snapshot().len();
+            // "the directory can be opened again at once"
+            let conf2 = c17_conf(dir, c, 0);
+            let mut c2 = conf2.clone();
+            c2.merge_policy(VerifMergePolicy::Never);
+            c2.sync(SyncStrategy::None);
+            match c2.open() {
+                Ok(kv2) => {
+                    let h2 = kv2.get_handle();
+                    match read_model(&h2, &keys) {
+                        Ok(m) if m == model => {}
+                        Ok(m) => return Err(("reopened-store-reads-wrongly".into(), format!("right after the drop: {:?}, expected {:?}", m, model))),
+                        Err(e) => return Err(("reopened-store-reads-wrongly".into(), format!("right after the drop: {}", e))),
+                    }
+                    h2.set(b("n"), b("new")).map_err(|e| ("reopened-store-reads-wrongly".to_string(), format!("set on the re-opened store: {}", e)))?;
+                    model.insert(b"n".to_vec(), b"new".to_vec());
+                    reopened_early = Some((kv2, h2));
+                }
+                Err(e) => return Err(("directory-cannot-be-reopened-at-once".into(), format!("open right after the drop: {}", e))),
+            }
+        }
+        // release whatever is held; the old instance's in-flight operation runs to completion
+        let t_release = Instant::now();
+        ctl_disable();
+        iohook::vtime_hold(false);
+        iohook::vtime_limit_ms(None);
+        let _ = dropper.join();
+        if drop_waited {
+            log_len_at_drop = iohook::grec_snapshot().len();
+            for (what, r) in [("set", h.set(b("x"), b("y")).map(|_| ()).map_err(|e| e.to_string())), ("merge", h.verif_merge().map_err(|e| e.to_string()))] {
+                match r {
+                    Err(e) if e.contains("closed") => {}
+                    other => return Err(("operation-on-a-closed-store-not-rejected".into(), format!("{} through a retained handle after the drop returned: {:?}", what, other))),
+                }
+            }
+        }
+        // the worker exits promptly although its next timer is an hour away
+        let Some(took) = wait_bg_gone_excluding(reopened_early.is_some(), Duration::from_secs(2)) else {
+            return Err(("worker-thread-does-not-exit".into(), format!("the background thread is still alive 2 s after the drop (held at {:?}, released {:?} ago)", held, t_release.elapsed())));
+        };
+        std::thread::sleep(Duration::from_millis(3));
+        // no change on disk by the old instance after its drop returned
+        let log = iohook::grec_snapshot();
+        let late: Vec<String> = log[log_len_at_drop.min(log.len())..].iter().filter(|x| x.is_mutating()).map(|x| x.short()).collect();
+        // the re-opened instance's own calls (creation of its active file, its set) are legitimate: they
+        // are issued by this thread synchronously before log_len is sampled again below
+        let own: usize = if reopened_early.is_some() { 2 } else { 0 };
+        let _ = log_len_before_drop;
+        if late.len() > own {
+            return Err(("old-instance-changes-the-directory-after-drop".into(), format!("held at {:?}; mutating calls after the drop returned (the first {} belong to the re-opened store): {:?}", held, own, late)));
+        }
+        // the re-opened store still answers correctly after the old operation has completed
+        if let Some((kv2, h2)) = reopened_early.take() {
+            match read_model(&h2, &keys) {
+                Ok(m) if m == model => {}
+                Ok(m) => return Err(("reopened-store-reads-wrongly".into(), format!("after the old instance's operation completed: {:?}, expected {:?}", m, model))),
+                Err(e) => return Err(("reopened-store-reads-wrongly".into(), format!("after the old instance's operation completed: {}", e))),
+            }
+            drop(h2);
+            drop(kv2);
+        }
+        // a further close / re-open still works and reads the same
+        let mut c3 = c17_conf(dir, c, 0);
+        c3.merge_policy(VerifMergePolicy::Never);
+        c3.sync(SyncStrategy::None);
+        match c3.open() {
+            Ok(kv3) => {
+                let h3 = kv3.get_handle();
+                match read_model(&h3, &keys) {
+                    Ok(m) if m == model => {}
+                    Ok(m) => return Err(("reopened-store-reads-wrongly".into(), format!("after a further re-open: {:?}, expected {:?}", m, model))),
+                    Err(e) => return Err(("reopened-store-reads-wrongly".into(), format!("after a further re-open: {}", e))),
+                }
+            }
+            Err(e) => return Err(("directory-cannot-be-reopened-at-once".into(), format!("further re-open: {}", e))),
+        }
+        Ok(format!("{}{} drop_waited={} worker_exit<{}ms", c.at, if c.at == "inner" { format!("#{}", c.inner) } else { String::new() }, drop_waited, took.as_millis() + 1))
+    })();
+    ctl_disable();
+    iohook::vtime_hold(false);
+    iohook::vtime_limit_ms(None);
+    drop(h);
+    let _ = wait_bg_gone(Duration::from_secs(3));
+    iohook::grec_stop();
+    iohook::vtime_enable(false);
+    let o = res?;
+    // open / close cycles do not accumulate threads or descriptors
+    if c.cycles > 0 {
+        let mut base: Option<(usize, usize)> = None;
+        for i in 0..c.cycles {
+            let mut cc = c17_conf(dir, c, 4);
+            cc.merge_check_interval_ms(3_600_000);
+            let kv = cc.open().map_err(|e| ("directory-cannot-be-reopened-at-once".to_string(), format!("cycle {}: {}", i, e)))?;
+            let hh = kv.get_handle();
+            let _ = hh.get(b("k"));
+            drop(hh);
+            drop(kv);
+            if wait_bg_gone(Duration::from_secs(2)).is_none() {
+                return Err(("worker-thread-does-not-exit".into(), format!("cycle {}: background thread alive 2 s after the drop", i)));
+            }
+            std::thread::sleep(Duration::from_millis(2));
+            let now = (thread_count(), fd_count());
+            match base {
+                None => base = Some(now),
+                Some(b0) => {
+                    if now.0 > b0.0 || now.1 > b0.1 {
+                        return Err(("threads-or-descriptors-accumulate".into(), format!("after cycle {}: {} threads / {} fds, after the first cycle {} / {}", i, now.0, now.1, b0.0, b0.1)));
+                    }
+                }
+            }
+        }
+        let _ = threads0;
+    }
+    Ok(o)
+}
+
+fn wait_bg_gone_excluding(_another_instance_open: bool, timeout: Duration) -> Option<Duration> {
+    // the re-opened instance runs with merge policy never and no interval sync: its background thread
+    // finishes by itself at once, so "no background thread left" still identifies the old worker
+    wait_bg_gone(timeout)
+}
+
+fn c17_cases(tier: Tier) -> Vec<C17Case> {
+    let mut v = vec![];
+    let cycles = tier.pick(2, 20);
+    for (trigger_met, merge_never) in [(true, false), (false, false), (false, true)] {
+        for sync_interval in [false, true] {
+            for tick in 1..=3usize {
+                let base = C17Case { at: String::new(), inner: 0, tick, trigger_met, merge_never, sync_interval, cycles: 0 };
+                v.push(C17Case { at: "sleeping".into(), cycles: if tick == 1 { cycles } else { 0 }, ..base.clone() });
+                if !merge_never {
+                    v.push(C17Case { at: "bg:merge:tick".into(), ..base.clone() });
+                    if trigger_met {
+                        v.push(C17Case { at: "bg:merge:go".into(), ..base.clone() });
+                        // every hook point inside the running background merge
+                        for inner in 1..=tier.pick(14, 30) {
+                            v.push(C17Case { at: "inner".into(), inner, ..base.clone() });
+                        }
+                    }
+                }
+                if sync_interval {
+                    v.push(C17Case { at: "bg:sync:tick".into(), ..base.clone() });
+                    if merge_never || !trigger_met {
+                        // inner points of a background sync
+                        for inner in 1..=2 {
+                            v.push(C17Case { at: "inner".into(), inner, ..base.clone() });
+                        }
+                    }
+                }
+            }
+        }
+    }
+    v
+}
+
+// ---------------------------------------------------------------------------------------------
+
+pub fn worker(job: &Job) -> Shard {
+    let mut sh = Shard::default();
+    let t0 = Instant::now();
+    let dir = job.scratch().join("store");
+    match job.prop.as_str() {
+        "C18" => {
+            let cases = c18_cases(job.tier);
+            let total = cases.len();
+            for (i, c) in cases.into_iter().enumerate() {
+                if i % job.nshards != job.shard {
+                    continue;
+                }
+                if t0.elapsed().as_secs() > job.deadline_s || sh.viol_counts.values().sum::<u64>() >= 6 {
+                    sh.capped = true;
+                    sh.notes.insert(format!("stopped (time cap or 6 violations in this shard) after {} of {} configurations", i, total));
+                    break;
+                }
+                let case = c.to_json();
+                job.progress(&case);
+                sh.evaluations += 1;
+                sh.transitions += c.horizon as u64;
+                sh.nontrivial.insert(fnv(case.to_string().as_bytes()));
+                for t in 0..=c.horizon {
+                    sh.states.insert(fnv(format!("{}|{}", case, t).as_bytes()));
+                }
+                let mut r = c18_case(&dir, &c);
+                if matches!(&r, Err((cl, _)) if cl == "MACHINERY") {
+                    r = c18_case(&dir, &c);
+                }
+                match r {
+                    Ok(o) => sh.outcome(o),
+                    Err((cl, msg)) if cl == "MACHINERY" => sh.machinery_errors.push(format!("C18 {} {}", msg, case)),
+                    Err((cl, msg)) => match c18_case(&dir, &c) {
+                        Err((c2, _)) if c2 == cl => sh.violate(Violation { class: format!("C18:{}", cl), msg: format!("{} | {}", msg, case), case }),
+                        other => sh.machinery_errors.push(format!("C18 violation {} not reproduced ({:?}): {} {}", cl, other.map_err(|e| e.0), msg, case)),
+                    },
+                }
+                if sh.samples.len() < 2 && i % 53 == job.shard {
+                    sh.samples.push(c.to_json());
+                }
+            }
+        }
+        "C17" => {
+            let cases = c17_cases(job.tier);
+            let total = cases.len();
+            for (i, c) in cases.into_iter().enumerate() {
+                if i % job.nshards != job.shard {
+                    continue;
+                }
+                if t0.elapsed().as_secs() > job.deadline_s || sh.viol_counts.values().sum::<u64>() >= 12 {
+                    sh.capped = true;
+                    sh.notes.insert(format!("stopped (time cap or 12 violations in this shard) after {} of {} cases", i, total));
+                    break;
+                }
+                let case = c.to_json();
+                job.progress(&case);
+                sh.evaluations += 1;
+                sh.transitions += 4 + c.cycles as u64;
+                let r = c17_case(&dir, &c);
+                match r {
+                    Ok(o) => {
+                        if o != "gate-position-not-reached" {
+                            sh.nontrivial.insert(fnv(case.to_string().as_bytes()));
+                            sh.states.insert(fnv(format!("{}|{}|{}|{}|{}", c.at, c.inner, c.trigger_met, c.merge_never, c.sync_interval).as_bytes()));
+                        }
+                        sh.outcome(o)
+                    }
+                    Err((cl, msg)) if cl == "MACHINERY" => sh.machinery_errors.push(format!("C17 {} {}", msg, case)),
+                    Err((cl, msg)) => match c17_case(&dir, &c) {
+                        Err((c2, _)) if c2 == cl => sh.violate(Violation { class: format!("C17:{}", classify17(&cl, &c)), msg: format!("{} | {}", msg, case), case }),
+                        other => sh.machinery_errors.push(format!("C17 violation {} not reproduced ({:?}): {} {}", cl, other.map_err(|e| e.0), msg, case)),
+                    },
+                }
+                if sh.samples.len() < 3 && i % 17 == job.shard {
+                    sh.samples.push(c.to_json());
+                }
+            }
+        }
+        p => panic!("no E6 plan for {}", p),
+    }
+    rmrf(&job.scratch());
+    sh
+}
+
+/// Root-cause classes for C17 (matched against known_findings.json).
+fn classify17(class: &str, c: &C17Case) -> String {
+    if c.at == "inner" {
+        format!("{}[drop-while-a-background-operation-is-past-its-closed-check]", class)
+    } else {
+        class.to_string()
+    }
+}
+
+pub fn replay(prop: &str, case: &Value) -> Vec<Violation> {
+    let dir = PathBuf::from(format!("/dev/shm/vh-replay-{}", std::process::id()));
+    let mut out = vec![];
+    match case["kind"].as_str().unwrap_or("") {
+        "c18" => {
+            if let Some(c) = C18Case::from_json(case) {
+                if let Err((cl, msg)) = c18_case(&dir, &c) {
+                    out.push(Violation { class: format!("{}:{}", prop, cl), msg, case: case.clone() });
+                }
+            }
+        }
+        "c17" => {
+            if let Some(c) = C17Case::from_json(case) {
+                match c17_case(&dir, &c) {
+                    Err((cl, msg)) => out.push(Violation { class: format!("{}:{}", prop, classify17(&cl, &c)), msg, case: case.clone() }),
+                    Ok(o) => println!("outcome: {}", o),
+                }
+            }
+        }
+        _ => {}
+    }
+    rmrf(&dir);
+    out
+}
+
+pub fn report_meta(prop: &str, tier: Tier) -> (String, Value, Vec<String>) {
+    let assumptions = vec![
+        "virtual time: the background thread (recognised by its name through the interposed pthread_setname_np) sees CLOCK_MONOTONIC plus a virtual offset, and its epoll_wait(timeout) advances the offset instead of sleeping after a 3 ms real grace for in-flight spawn_blocking results; these two calls are the worker's only time sources".to_string(),
+        "jitter samples (rand::thread_rng) are observed, not chosen: the oracle accepts any sample inside the documented range".to_string(),
+        "MergePolicy::Window is exercised with a window containing / excluding the current local hour; a case that straddles the top of the hour is retried".to_string(),
+    ];
+    match prop {
+        "C18" => {
+            let n = c18_cases(tier).len();
+            (
+                format!("exhaustive configuration grid in virtual time ({} configurations): merge policy {{never, always, window containing now, window excluding now}} x trigger crossing {{none, dead bytes, fragmentation, both}} placed while the worker is held at tick k in {{1, 2, 3}} x check interval {{1 ms, 1 s, 18 s, 3 min, 1 h}} x jitter {{0, 0.3, 1}} x sync {{none, always, interval = interval/3{}}}, horizon {} ticks, plus interval sync alone at 1 ms / 500 ms / 10 min. At EVERY tick (worker held at the hook point after its sleep): tick spacing inside interval*(1 +- jitter); the implementation's trigger predicate equals a reference predicate on the counters; a merge starts at exactly the first tick at which the predicate holds and the policy allows, and at no other tick; with interval sync consecutive fsyncs of a data file are at most one interval apart in virtual time and stop after the drop.", n, tier.pick("", ", 2 x interval"), tier.pick(5, 10)),
+                json!({"configurations": n, "horizon_ticks": tier.pick(5, 10)}),
+                assumptions,
+            )
+        }
+        _ => {
+            let n = c17_cases(tier).len();
+            (
+                format!("{} cases: worker configuration {{trigger met, not met, merge never}} x {{no sync task, interval sync}} x drop placed before tick 1..3 at: worker asleep with its timer an hour (virtual) away; held at each hook gate (after the merge sleep, before the merge is spawned, after the sync sleep); held at EVERY hook point inside a running background merge or sync (blocking-pool thread). Everything is judged relative to the moment the drop RETURNED: every operation on a retained handle is rejected as closed; the old instance issues no mutating system call afterwards (global recorder); the worker thread is gone within 2 s real time; the directory re-opens at once, reads as the map model at once, after the old operation has completed and after a further re-open (reader cache 0); {} open/close cycles leave thread and descriptor counts unchanged.", n, tier.pick(2, 20)),
+                json!({"cases": n}),
+                assumptions,
+            )
+        }
+    }
+}
+
+#[allow(dead_code)]
+fn _unused(_: BTreeMap<u8, u8>) {}
